@@ -14,7 +14,7 @@
     prefills), logged call by call, validated line by line by TLC against MapAbs (spec/OrderedMap/MapTrace.tla), the invariants of 1.
     included.
 """
-import concurrent.futures as cf, json, os, re, subprocess, sys, threading, time
+import concurrent.futures as cf, json, os, re, shutil, subprocess, sys, threading, time
 import vlib
 
 FAM = "OrderedMap"
@@ -77,6 +77,7 @@ NOTE = ["-noGenerateSpecTE"]
 
 
 T0 = [time.time()]
+JTMP = ["/tmp"]
 
 
 class _Pool:
@@ -87,7 +88,8 @@ class _Pool:
             while self.n < w: self.c.wait()
             self.n -= w
         t0 = time.time()
-        try: return vlib.tlc(*a, workers=w, **kw)
+        env = dict(kw.pop("env", None) or {}); env["JAVA_TOOL_OPTIONS"] = "-Djava.io.tmpdir=" + JTMP[0]    # TLC unpacks its standard modules into java.io.tmpdir and leaves them there
+        try: return vlib.tlc(*a, workers=w, env=env, **kw)
         finally:
             if os.environ.get("C09_TIMING"): vlib.log("  [t+%.0fs] tlc %s %s w=%d took %.1fs" % (time.time() - T0[0], a[0], a[1], w, time.time() - t0))
             with self.c: self.n += w; self.c.notify_all()
@@ -95,8 +97,10 @@ class _Pool:
 
 def run(v, tier, seed):
     quick = (tier == "quick"); TIER[0] = tier[0]; del CFGS[:]
+    JTMP[0] = os.path.join(vlib.BUILD, "work", "C09", "jtmp%d" % os.getpid()); os.makedirs(JTMP[0], exist_ok=True)
     try: return _run(v, tier, seed, quick)
     finally:
+        shutil.rmtree(JTMP[0], ignore_errors=True)
         for p in CFGS:
             try: os.remove(p)
             except OSError: pass
@@ -148,9 +152,9 @@ def _run(v, tier, seed, quick):
                                     "transitions_of_MapAbs": st["graph_edges"] // 2, "behaviours": nb, "tlc_s": round(r.wall, 1), "pathcover_s": round(time.time() - t0, 1)})
         return tag, bf, nb
 
-    def simulate(tag, n, depth):
+    def simulate(tag, n, depth, workers):
         name = cfg("gen_Sim_%s.cfg" % tag, "SimSpec", [1, 2, 3], [1, 2], 2, "none", ALL_OPS, False, True, ["TypeOK"], extra="CONSTANTS SimDepth = %d\n" % depth)
-        r = pool.run(2, "MapSim", name, FAM, timeout=3000, heap="4g", simulate=n // 2, depth=depth + 2, seed=seed, extra=NOTE)
+        r = pool.run(workers, "MapSim", name, FAM, timeout=3000, heap="4g", simulate=n // workers, depth=depth + 2, seed=seed, extra=NOTE)
         if r.error: raise vlib.MachineryError("MapSim: " + r.error)
         if r.violated: raise vlib.MachineryError("MapSim violates %s" % r.violated)
         beh = [b for b in r.printed if isinstance(b, list) and len(b) == depth][:n]
@@ -220,7 +224,7 @@ def _run(v, tier, seed, quick):
         mc_jobs = [("3keys_single_table", [1, 2, 3], [1], 1, "none", MC_SINGLE, 2), ("2keys_two_tables", [1, 2], [1], 1, "none", MC_TWO, 2),
                    ("sorted_key", [1, 2], [1, 2], 1, "key", MC_SORTED, 2), ("sorted_val", [1, 2], [1, 2], 1, "val", MC_SORTED, 2)]
         gen_jobs = [("single", [1, 2, 3], [1], 1, G_SINGLE), ("two", [1, 2], [1], 1, G_TWO), ("vals", [1, 2], [1, 2], 1, G_VALS), ("block", [1, 2, 3], [1], 1, G_BLOCK), ("twoit", [1, 2], [1], 2, G_TWOIT)]
-        sim_job = ("sim", 100, 30)
+        sim_job = ("sim", 100, 30, 2)
         big_every = 12
         rnd = []   # (cls, bad, P, slack, runs, ops)
         for cls in (0, 1, 2):
@@ -231,7 +235,7 @@ def _run(v, tier, seed, quick):
                    ("2keys_2its", [1, 2], [1], 2, "none", ["Put", "Remove", "MoveToBack", "MoveToBefore", "PutAtPosition", "Clear", "Swap", "MoveToTable", "ItNew", "ItNewAt", "ItAdv", "ItRet", "ItDel", "ItCopy"], 4)]
         gen_jobs = [("single", [1, 2, 3], [1], 1, G_SINGLE), ("two", [1, 2], [1], 1, G_TWO), ("vals", [1, 2], [1, 2], 1, G_VALS), ("block", [1, 2, 3], [1], 1, G_BLOCK), ("twoit", [1, 2], [1], 2, G_TWOIT),
                     ("two_big", [1, 2], [1, 2], 1, G_TWO_BIG), ("twoit_big", [1, 2], [1], 2, G_TWOIT_BIG)]
-        sim_job = ("sim", 20000, 60)
+        sim_job = ("sim", 4000, 50, 4)
         big_every = 2
         rnd = []
         for cls in (0, 1, 2):
